@@ -144,6 +144,10 @@ package ociclient
 //@   ensures[returns-a-verifying-reader] result.1 == nil ==>
 //@     (calls == [c.doRequest(_, _, _), newBlobReader(_, _)] && result.0 == calls[1].result) ||
 //@     (calls == [c.doRequest(_, _, _), c.doRequest(_, _, _), newBlobReader(_, _)] && result.0 == calls[2].result)
+// (a small manifest without a digest header is read into memory first: the
+// reader handed back then serves bytes this call allocated itself, shared with
+// no other call - not a recycled buffer)
+//@   ensures[buffered-content-is-the-calls-own-copy] result.1 == nil && len(data) > 0 ==> ownCopy(data)
 
 // The pager: each trip round the loop consumes one server answer, so it
 // terminates when the server's answers are finite.
